@@ -66,6 +66,24 @@ impl<R> AsyncReader<R> {
     }
 }
 
+#[cfg(minicbor_verif)]
+impl<R> AsyncReader<R> {
+    /// Verification hook: `(state tag, offset, buffer length, length prefix bytes)`.
+    ///
+    /// Tag 0 = reading the length prefix, tag 1 = reading the value bytes.
+    pub fn verif_state(&self) -> (u8, usize, usize, [u8; 4]) {
+        match &self.state {
+            State::ReadLen(b, o) => (0, usize::from(*o), self.buffer.len(), *b),
+            State::ReadVal(o)    => (1, *o, self.buffer.len(), [0; 4])
+        }
+    }
+
+    /// Verification hook: the internal frame buffer.
+    pub fn verif_buffer(&self) -> &[u8] {
+        &self.buffer
+    }
+}
+
 impl<R: AsyncRead + Unpin> AsyncReader<R> {
     /// Read the next CBOR value and decode it.
     ///
